@@ -139,13 +139,49 @@ func mkRate(a, o, r int64) (*premium.PremiumRate, bool) {
 	return pr, err == nil
 }
 
-// c27Peer renders a peer id; very long single-character ids (key size cases) are
-// built inside Coq, a literal of that length does not parse.
+// Long peer ids are emitted once per cases file as Coq constants (c27_pN) and referred to
+// by name: elaborating thousands of 66-character string literals dominates the run otherwise.
+// Very long single-character ids (key size cases) are built inside Coq.
+var c27PeerNames = map[string]string{}
+var c27PeerOrder = []string{}
+
 func c27Peer(p string) string {
 	if len(p) > 1000 && strings.Count(p, p[:1]) == len(p) {
 		return fmt.Sprintf("(rep_str %s %s)", CoqStr(p[:1]), CoqN(uint64(len(p))))
 	}
-	return CoqStr(p)
+	if len(p) < 8 {
+		return CoqStr(p)
+	}
+	if n, ok := c27PeerNames[p]; ok {
+		return n
+	}
+	n := fmt.Sprintf("c27_p%d", len(c27PeerOrder))
+	c27PeerNames[p] = n
+	c27PeerOrder = append(c27PeerOrder, p)
+	return n
+}
+
+// c27Key renders an observed bucket key; a key that starts with a named peer id is written
+// as (c27_pN ++ "rest"), which evaluates to exactly the observed bytes.
+func c27Key(k string) string {
+	best := ""
+	for _, p := range c27PeerOrder {
+		if len(p) > len(best) && strings.HasPrefix(k, p) {
+			best = p
+		}
+	}
+	if best == "" {
+		return CoqStr(k)
+	}
+	return fmt.Sprintf("(%s ++ %s)%%string", c27PeerNames[best], CoqStr(k[len(best):]))
+}
+
+func c27PeerDefs() string {
+	var b strings.Builder
+	for _, p := range c27PeerOrder {
+		fmt.Fprintf(&b, "Definition %s : String.string := %s.\n", c27PeerNames[p], CoqStr(p))
+	}
+	return b.String()
 }
 
 func optZ(ok bool, v int64) string { return CoqOpt(ok, CoqZ(v)) }
@@ -252,7 +288,7 @@ func (e *c27Env) exec(op *c27Op) error {
 			}
 			return bk.ForEach(func(k, v []byte) error {
 				op.Dump = append(op.Dump, []string{string(k), string(v)})
-				xs = append(xs, CoqPair(CoqStr(string(k)), CoqStr(string(v))))
+				xs = append(xs, CoqPair(c27Key(string(k)), CoqStr(string(v))))
 				return nil
 			})
 		})
@@ -598,5 +634,6 @@ func runC27(args []string) error {
 	}
 
 	fmt.Fprintf(os.Stderr, "c27 kinds: %v\nc27 branches: %v\n", cf.Kinds, branches)
-	return cf.Write(*out, 150, map[string]interface{}{"seed": *seed, "branches": branches})
+	cf.Imports += "\n" + c27PeerDefs()
+	return cf.Write(*out, 100, map[string]interface{}{"seed": *seed, "branches": branches})
 }
